@@ -14,7 +14,8 @@ Definition prims_eq (A B : prims) : Prop :=
   (forall s d, p_quote A s d = p_quote B s d) /\
   p_stack A = p_stack B /\
   b_f32 A = b_f32 B /\ b_f64 A = b_f64 B /\ b_map_write_key A = b_map_write_key B /\
-  b_empty_arr A = b_empty_arr B /\ b_empty_obj A = b_empty_obj B /\ b_recurse A = b_recurse B.
+  b_empty_arr A = b_empty_arr B /\ b_empty_obj A = b_empty_obj B /\ b_recurse A = b_recurse B /\
+  b_eface A = b_eface B /\ b_iface A = b_iface B.
 
 Lemma pattern_range : forall w z, (0 < w <= 64)%N -> (0 <= pattern w z < 2 ^ 64)%Z.
 Proof.
@@ -58,11 +59,11 @@ Lemma step_ext : forall A B, prims_eq A B -> forall e co s, step A e co s = step
 Proof.
   intros A B H e co s.
   pose proof (encodeText_ext A B H) as Htx.
-  destruct H as (Hi & Hu & Hf64 & Hf32 & Hq & Hst & H1 & H2 & H3 & H4 & H5 & H6).
+  destruct H as (Hi & Hu & Hf64 & Hf32 & Hq & Hst & H1 & H2 & H3 & H4 & H5 & H6 & H7 & H8).
   unfold step.
   destruct (frames s) as [|f rest]; [reflexivity|].
   destruct (nth_error (fprog f) (fpc f)) as [ins|]; [|reflexivity].
-  rewrite <- ?Hst, <- ?H1, <- ?H2, <- ?H3, <- ?H4, <- ?H5, <- ?H6.
+  rewrite <- ?Hst, <- ?H1, <- ?H2, <- ?H3, <- ?H4, <- ?H5, <- ?H6, <- ?H7, <- ?H8.
   destruct ins; try reflexivity;
     try (timeout 60 (break_match;
                      rewrite <- ?Hi by (apply as_signed_range; lia);
@@ -96,11 +97,12 @@ Theorem flag_bits_agree :
   b_f32 prims_vm = b_f32 prims_jit /\ b_f64 prims_vm = b_f64 prims_jit /\
   b_map_write_key prims_vm = b_map_write_key prims_jit /\
   b_empty_arr prims_vm = b_empty_arr prims_jit /\ b_empty_obj prims_vm = b_empty_obj prims_jit /\
-  b_recurse prims_vm = b_recurse prims_jit /\
+  b_recurse prims_vm = b_recurse prims_jit /\ b_eface prims_vm = b_eface prims_jit /\ b_iface prims_vm = b_iface prims_jit /\
   (* and they are the documented bits *)
   b_f32 prims_vm = BitEncodeNullForInfOrNan /\ b_f64 prims_vm = BitEncodeNullForInfOrNan /\
   b_map_write_key prims_vm = BitSortMapKeys /\ b_empty_arr prims_vm = BitNoNullSliceOrMap /\
-  b_empty_obj prims_vm = BitNoNullSliceOrMap /\ b_recurse prims_vm = BitPointerValue.
+  b_empty_obj prims_vm = BitNoNullSliceOrMap /\ b_recurse prims_vm = BitPointerValue /\
+  b_eface prims_vm = BitPointerValue /\ b_iface prims_vm = BitPointerValue.
 Proof. repeat split; reflexivity. Qed.
 
 (* integers: the native fastint.h routines print what strconv prints (Num/IntPrintExact.v, Enc/IntBridge.v) *)
@@ -180,7 +182,8 @@ Definition prims_jit_repaired : prims := {|
   p_f64toa := p_f64toa prims_vm; p_f32toa := p_f32toa prims_vm;
   p_quote := p_quote prims_jit; p_stack := p_stack prims_vm;
   b_f32 := b_f32 prims_jit; b_f64 := b_f64 prims_jit; b_map_write_key := b_map_write_key prims_jit;
-  b_empty_arr := b_empty_arr prims_jit; b_empty_obj := b_empty_obj prims_jit; b_recurse := b_recurse prims_jit |}.
+  b_empty_arr := b_empty_arr prims_jit; b_empty_obj := b_empty_obj prims_jit; b_recurse := b_recurse prims_jit;
+  b_eface := b_eface prims_jit; b_iface := b_iface prims_jit |}.
 
 Theorem exec_agree_partial : forall e co flags v,
   encode prims_vm e co flags v = encode prims_jit_repaired e co flags v.
